@@ -70,7 +70,7 @@ func c18Err(err error) string {
 	case usermanager.ErrSessionsCapReached:
 		return "cap"
 	}
-	// the guard proposed in repo_patches/F8_nonpositive_rate.diff
+	// server.ErrBadRate (commit 638655d); matched by text so that the driver still builds when that fix is reverted
 	if strings.Contains(err.Error(), "rate") {
 		return "badrate"
 	}
